@@ -486,6 +486,8 @@ package bus
 //@   ensures[C13,C12] !o.signalsMutex.lockw && o.signalsMutex.lockr == 0
 //@   ensures[C13] err == nil ==> at_unlock(len(o.signals)) == at_lock(len(o.signals)) - 1
 //@   ensures[C13] err != nil ==> at_unlock(len(o.signals)) == at_lock(len(o.signals)) && forall k int {at_unlock(o.signals[k])} :: 0 <= k && k < at_lock(len(o.signals)) ==> at_unlock(o.signals[k]).userID == at_lock(o.signals[k]).userID
+// completeness: a removal is refused only when no entry has the requested id on the requesting connection
+//@   ensures[C13] err != nil ==> forall k int {at_lock(o.signals[k])} :: 0 <= k && k < at_lock(len(o.signals)) ==> !(at_lock(o.signals[k]).userID == userID && at_lock(o.signals[k]).context.epref == from.epref && at_lock(o.signals[k]).context.eptag == from.eptag)
 //@   call Unlock#1: assert[C13] user.userID == userID && user.context.epref == from.epref && user.context.eptag == from.eptag
 //@   call Unlock#1: assert[C13] len(o.signals) == at_lock(len(o.signals)) - 1 && at_lock(o.signals[i]).userID == userID && at_lock(o.signals[i]).context == user.context
 //@   call Unlock#1: assert[C13] forall k int {o.signals[k]} :: 0 <= k && k < len(o.signals) && k != i ==> o.signals[k].userID == at_lock(o.signals[k]).userID && o.signals[k].signalID == at_lock(o.signals[k]).signalID && o.signals[k].messageID == at_lock(o.signals[k]).messageID && o.signals[k].context == at_lock(o.signals[k]).context && o.signals[k].contextID == at_lock(o.signals[k]).contextID
@@ -493,6 +495,7 @@ package bus
 //@   loop 1:
 //@     invariant o.signalsMutex.lockw && o.signals == at_lock(o.signals)
 //@     invariant forall k int {o.signals[k]} :: 0 <= k && k < len(o.signals) ==> o.signals[k].context != nil && o.signals[k].userID == at_lock(o.signals[k]).userID
+//@     invariant forall k int {o.signals[k]} :: 0 <= k && k <= rangeindex && k < len(o.signals) ==> !(o.signals[k].userID == userID && o.signals[k].context.epref == from.epref && o.signals[k].context.eptag == from.eptag)
 
 // One event per matching subscriber: Event message carrying the subscriber's own message id, this
 // object's address and the signal id.
@@ -539,6 +542,8 @@ package bus
 //@   ensures[C13,C12] !o.signalsMutex.lockw && o.signalsMutex.lockr == 0
 //@   ensures[C13] err == nil ==> at_unlock(len(o.signals)) == at_lock(len(o.signals)) + 1 && at_unlock(o.signals[at_lock(len(o.signals))]).userID == userID && at_unlock(o.signals[at_lock(len(o.signals))]).signalID == signalID && at_unlock(o.signals[at_lock(len(o.signals))]).messageID == messageID
 //@   ensures[C13,C12] err != nil ==> at_unlock(len(o.signals)) == at_lock(len(o.signals))
+// completeness: a registration is refused only because its user id is already in the table
+//@   ensures[C13] err != nil ==> !(forall k int {at_lock(o.signals[k])} :: 0 <= k && k < at_lock(len(o.signals)) ==> at_lock(o.signals[k]).userID != userID)
 //@   ensures[C13] from.replies == old(from.replies) && from.errsent == old(from.errsent)
 //@   call MakeHandler#1: assert[C13] forall k int {at_lock(o.signals[k])} :: 0 <= k && k < at_lock(len(o.signals)) ==> at_lock(o.signals[k]).userID != userID
 //@   loop 1:
